@@ -19,6 +19,7 @@ package main
 // reported, never assumed.
 
 import (
+	"os"
 	"fmt"
 	"go/constant"
 	"go/token"
@@ -225,6 +226,7 @@ type bprover struct {
 	w        *World
 	fn       *ssa.Function
 	linMemo  map[ssa.Value]blin
+	phiCondDepth int
 	lenMemo  map[ssa.Value]blin
 	rngMemo  map[atom]irange
 	rngBusy  map[atom]bool
@@ -1266,6 +1268,11 @@ func (p *bprover) atomFacts1(a atom) []bfact {
 	}
 	switch x := a.v.(type) {
 	case *ssa.Extract:
+		if call, ok := x.Tuple.(*ssa.Call); ok && p.br != nil && isIntType(x.Type()) {
+			if _, isB := call.Call.Value.(*ssa.Builtin); !isB && !call.Call.IsInvoke() && p.br.nonNegCall(call, x.Index) {
+				add(me, true, "callee returns a non-negative value")
+			}
+		}
 		// io.Reader contract: n, err := r.Read(buf)  gives  0 <= n <= len(buf)
 		if call, ok := x.Tuple.(*ssa.Call); ok && x.Index == 0 && call.Call.IsInvoke() && call.Call.Method.Name() == "Read" && len(call.Call.Args) == 1 {
 			if bIsByteSlice(call.Call.Args[0].Type().Underlying()) && isIntType(x.Type()) {
@@ -1328,6 +1335,9 @@ func (p *bprover) atomFacts1(a atom) []bfact {
 			}
 		}
 	case *ssa.Call:
+		if _, isB := x.Call.Value.(*ssa.Builtin); !isB && p.br != nil && isIntType(x.Type()) && p.br.nonNegCall(x, 0) {
+			add(me, true, "callee returns a non-negative value")
+		}
 		if b, ok := x.Call.Value.(*ssa.Builtin); ok {
 			switch b.Name() {
 			case "min":
@@ -1394,7 +1404,10 @@ func (p *bprover) atomFacts1(a atom) []bfact {
 				c = int64(1) << uint(k)
 			}
 		}
-		if c > 0 && a0.hasLo && a0.lo >= 0 {
+		// (an arithmetic right shift rounds towards minus infinity, so the
+		// bracket holds for negative operands as well; truncating division
+		// needs a non-negative dividend)
+		if c > 0 && (x.Op == token.SHR || a0.hasLo && a0.lo >= 0) {
 			if cq, ok := me.scale(c); ok {
 				xl := p.linOf(x.X)
 				e1, ok1 := xl.sub(cq)
@@ -1499,6 +1512,41 @@ func (p *bprover) condFacts(cond ssa.Value, pol bool, out *[]bfact) {
 		if c.Op == token.NOT {
 			p.condFacts(c.X, !pol, out)
 		}
+	case *ssa.Phi:
+		// a && b, a || b evaluated as a value: the constant edges that
+		// contradict the outcome are excluded; if one edge remains, the
+		// conditions under which it is taken hold as well
+		if p.phiCondDepth > 3 {
+			return
+		}
+		var only ssa.Value
+		var from *ssa.BasicBlock
+		n := 0
+		for i, e := range c.Edges {
+			if k, ok := e.(*ssa.Const); ok && k.Value != nil && k.Value.Kind() == constant.Bool {
+				if constant.BoolVal(k.Value) != pol {
+					continue
+				}
+			}
+			n++
+			only, from = e, c.Block().Preds[i]
+		}
+		if n != 1 {
+			return
+		}
+		p.phiCondDepth++
+		for _, g := range guardsOf(from) {
+			p.condFacts(g.cond, g.then, out)
+		}
+		if len(from.Instrs) > 0 {
+			if ifi, ok := from.Instrs[len(from.Instrs)-1].(*ssa.If); ok && from.Succs[0] != from.Succs[1] {
+				p.condFacts(ifi.Cond, from.Succs[0] == c.Block(), out)
+			}
+		}
+		if _, isConst := only.(*ssa.Const); !isConst {
+			p.condFacts(only, pol, out)
+		}
+		p.phiCondDepth--
 	case *ssa.BinOp:
 		xt := c.X.Type()
 		if isIntType(xt) {
@@ -1760,6 +1808,21 @@ func (p *bprover) prove(facts []bfact, goal blin, at *ssa.BasicBlock, splits int
 					break
 				}
 			}
+			if !hit && round >= 1 && len(f.e.t) <= 3 {
+				// a bound on a loop-carried accumulator whose induction fact
+				// mentions a relevant atom (total >= init + k*len(x), total <= c)
+				for a := range f.e.t {
+					if ph, isPhi := a.v.(*ssa.Phi); isPhi && a.k == aVal && isLoopPhi(ph) {
+						for _, af := range p.atomFacts(a) {
+							for b := range af.e.t {
+								if rel[b] {
+									hit = true
+								}
+							}
+						}
+					}
+				}
+			}
 			if !hit {
 				continue
 			}
@@ -1802,6 +1865,11 @@ func (p *bprover) prove(facts []bfact, goal blin, at *ssa.BasicBlock, splits int
 		return false
 	}
 	negGoal := neg.addc(-1)
+	if p.trace {
+		for _, c := range cons {
+			fmt.Printf("%s   cons %s >= 0\n", strings.Repeat("  ", 4-splits), p.linStr(c))
+		}
+	}
 	if p.infeasible(append(append([]blin{}, cons...), negGoal)) {
 		return true
 	}
@@ -1813,6 +1881,13 @@ func (p *bprover) prove(facts []bfact, goal blin, at *ssa.BasicBlock, splits int
 			continue
 		}
 		if _, isC := bconstInt(bo.Y); isC {
+			// constant divisor: the sign of the remainder follows the dividend
+			me := blatom(a)
+			nx, _ := p.linOf(bo.X).scale(-1)
+			if p.infeasible(append(append([]blin{}, cons...), nx.addc(-1))) { // x >= 0
+				cons = append(cons, me)
+				added = true
+			}
 			continue
 		}
 		y := p.linOf(bo.Y)
@@ -2673,6 +2748,43 @@ func (p *bprover) monotoneLeaf(x *ssa.Phi) (leaf ssa.Value, up, down, ok bool) {
 						}
 						return walk(y.X, depth+1)
 					}
+				} else if y.Op == token.ADD {
+					// a step by a value that is never negative (a length, a product of lengths and positive constants)
+					isChain := func(v ssa.Value) bool {
+						switch v.(type) {
+						case *ssa.Phi:
+							return true
+						case *ssa.BinOp:
+							return seen[v] || true
+						}
+						return false
+					}
+					var nonNeg func(v ssa.Value) bool
+					nonNeg = func(v ssa.Value) bool {
+						r := p.valRange(v)
+						if r.hasLo && r.lo >= 0 {
+							return true
+						}
+						switch c := v.(type) {
+						case *ssa.Call:
+							if _, isB := c.Call.Value.(*ssa.Builtin); !isB && p.br != nil && isIntType(c.Type()) {
+								return p.br.nonNegCall(c, 0)
+							}
+						case *ssa.BinOp:
+							if (c.Op == token.ADD || c.Op == token.MUL) && is64(c.Type()) {
+								return nonNeg(c.X) && nonNeg(c.Y)
+							}
+						}
+						return false
+					}
+					if _, xPhi := y.X.(*ssa.Phi); (xPhi || func() bool { b, ok := y.X.(*ssa.BinOp); return ok && b.Op == token.ADD }()) && isChain(y.X) && nonNeg(y.Y) {
+						down = false
+						return walk(y.X, depth+1)
+					}
+					if _, yPhi := y.Y.(*ssa.Phi); yPhi && nonNeg(y.X) {
+						down = false
+						return walk(y.Y, depth+1)
+					}
 				}
 			}
 		}
@@ -2685,6 +2797,12 @@ func (p *bprover) monotoneLeaf(x *ssa.Phi) (leaf ssa.Value, up, down, ok bool) {
 		return true
 	}
 	if !walk(x, 0) || len(leaves) != 1 || (!up && !down) {
+		if p.trace || os.Getenv("SFNT_MONO") != "" {
+			fmt.Printf("      monotoneLeaf(%s): %d leaves up=%v down=%v\n", x.Name(), len(leaves), up, down)
+			for _, l := range leaves {
+				fmt.Printf("        leaf %s = %s\n", l.Name(), l.String())
+			}
+		}
 		return nil, false, false, false
 	}
 	// the leaf must not change while the loops run
@@ -2697,6 +2815,9 @@ func (p *bprover) monotoneLeaf(x *ssa.Phi) (leaf ssa.Value, up, down, ok bool) {
 				return nil, false, false, false
 			}
 		}
+	}
+	if os.Getenv("SFNT_MONO") != "" {
+		fmt.Printf("      monotoneLeaf(%s) ok: leaf %s = %s up=%v down=%v\n", x.Name(), leaves[0].Name(), leaves[0].String(), up, down)
 	}
 	return leaves[0], up, down, true
 }
